@@ -910,3 +910,211 @@ Qed.
 Theorem mask_probe_support (X : list (list oq)) v i :
   col_defined X i = false -> nth i (mask_probe X v) 0 == 0.
 Proof. intros H. unfold mask_probe. apply mask_from_support. exact H. Qed.
+
+(* ================================================================== magnitudes
+   homogeneity of the leave-one-out recount (counts, weights, normalised statistic, histograms,
+   covariance) and the refutation of a thresholded variant *)
+Lemma qsum_vscale c l : qsum (vscale c l) == c * qsum l.
+Proof. unfold vscale. induction l as [|x l IH]; simpl; [ring|]. rewrite IH. ring. Qed.
+
+Lemma nth_vscale c l k : nth k (vscale c l) 0 == c * nth k l 0.
+Proof.
+  unfold vscale. revert k; induction l as [|x l IH]; intros k; simpl.
+  - destruct k; ring.
+  - destruct k; [reflexivity | apply IH].
+Qed.
+
+Lemma nth_mscale c (M : mat) k : nth k (mscale c M) [] = vscale c (nth k M []).
+Proof. unfold mscale. change (@nil Q) with (vscale c []) at 1. apply map_nth. Qed.
+
+Lemma remove_nth_vscale c k l : remove_nth k (vscale c l) = vscale c (remove_nth k l).
+Proof. unfold vscale. symmetry. apply remove_nth_map. Qed.
+
+Lemma total_mscale c (M : mat) : total (mscale c M) == c * total M.
+Proof.
+  unfold total, mscale. induction M as [|r M IH]; simpl; [ring|].
+  rewrite IH, qsum_vscale. ring.
+Qed.
+
+Lemma del_mscale c k (M : mat) : del k (mscale c M) = mscale c (del k M).
+Proof.
+  unfold del, mscale. rewrite <- remove_nth_map. rewrite !map_map.
+  apply map_ext. intros r. apply remove_nth_vscale.
+Qed.
+
+Lemma rowsum_mscale c (M : mat) k : rowsum (mscale c M) k == c * rowsum M k.
+Proof. unfold rowsum. rewrite nth_mscale. apply qsum_vscale. Qed.
+
+Lemma colsum_mscale c (M : mat) k : colsum (mscale c M) k == c * colsum M k.
+Proof.
+  unfold colsum, mscale. induction M as [|r M IH]; simpl; [ring|].
+  rewrite IH, nth_vscale. ring.
+Qed.
+
+Lemma diag_mscale c (M : mat) k : diag (mscale c M) k == c * diag M k.
+Proof. unfold diag. rewrite nth_mscale. apply nth_vscale. Qed.
+
+(* the specification is homogeneous: every matrix, every k *)
+Theorem loo_scale c (M : mat) k : loo (mscale c M) k == c * loo M k.
+Proof. unfold loo. rewrite del_mscale. apply total_mscale. Qed.
+
+(* and so is the code's total - row - column + diagonal *)
+Theorem sample_scale c (M : mat) k : sample (mscale c M) k == c * sample M k.
+Proof.
+  unfold sample. rewrite total_mscale, colsum_mscale, rowsum_mscale, diag_mscale. ring.
+Qed.
+
+Lemma upper_half_sum_scale a b u v :
+  upper_half_sum (vscale a u) (vscale b v) == a * b * upper_half_sum u v.
+Proof.
+  revert v; induction u as [|x u IH]; intros v; simpl; [ring|].
+  destruct v as [|y v]; simpl; [ring|].
+  fold (vscale a u). fold (vscale b v). rewrite IH, qsum_vscale. ring.
+Qed.
+
+(* the normalisation: weights of the first catalog times a, of the second times b *)
+Theorem norm_denominator_scale auto a b u v :
+  norm_denominator auto (vscale a u) (vscale b v) == a * b * norm_denominator auto u v.
+Proof.
+  destruct auto; simpl; [apply upper_half_sum_scale|].
+  rewrite !qsum_vscale. ring.
+Qed.
+
+Lemma length_vscale c l : length (vscale c l) = length l.
+Proof. unfold vscale. apply map_length. Qed.
+
+Theorem weights_sample_scale auto a b u v k :
+  (k < length u)%nat -> (k < length v)%nat ->
+  sample (weights_array auto (vscale a u) (vscale b v)) k == a * b * sample (weights_array auto u v) k.
+Proof.
+  intros Hu Hv.
+  rewrite (weights_sample auto (vscale a u) (vscale b v) k) by (rewrite length_vscale; assumption).
+  rewrite (weights_sample auto u v k Hu Hv).
+  rewrite !remove_nth_vscale. apply norm_denominator_scale.
+Qed.
+
+Lemma Qdiv_scale (c d t n : Q) : ~ d == 0 -> (c * t) / (d * n) == (c / d) * (t / n).
+Proof.
+  intros Hd. destruct (Qeq_dec n 0) as [Hn|Hn].
+  - rewrite Hn. unfold Qdiv. setoid_replace (d * 0) with 0 by ring.
+    change (/ 0) with 0. ring.
+  - field. split; assumption.
+Qed.
+
+(* the statistic: counts times c, weights times a and b *)
+Theorem nc_stat_scale auto c a b (M : mat) u v :
+  ~ a * b == 0 ->
+  nc_stat auto (mscale c M) (vscale a u) (vscale b v) == (c / (a * b)) * nc_stat auto M u v.
+Proof.
+  intros H. unfold nc_stat. rewrite total_mscale, norm_denominator_scale. apply Qdiv_scale. exact H.
+Qed.
+
+(* object weights times a resp. b: pair counts are sums of products of weights *)
+Corollary nc_stat_weight_invariant auto a b (M : mat) u v :
+  ~ a * b == 0 ->
+  nc_stat auto (mscale (a * b) M) (vscale a u) (vscale b v) == nc_stat auto M u v.
+Proof.
+  intros H. rewrite nc_stat_scale by exact H. unfold Qdiv at 1. rewrite (Qmult_inv_r _ H). ring.
+Qed.
+
+Theorem nc_sample_scale auto c a b (M : mat) u v k :
+  (k < length u)%nat -> (k < length v)%nat -> ~ a * b == 0 ->
+  nc_sample auto (mscale c M) (vscale a u) (vscale b v) k == (c / (a * b)) * nc_sample auto M u v k.
+Proof.
+  intros Hu Hv H. unfold nc_sample. rewrite sample_scale, weights_sample_scale by assumption.
+  apply Qdiv_scale. exact H.
+Qed.
+
+Corollary nc_sample_weight_invariant auto a b (M : mat) u v k :
+  (k < length u)%nat -> (k < length v)%nat -> ~ a * b == 0 ->
+  nc_sample auto (mscale (a * b) M) (vscale a u) (vscale b v) k == nc_sample auto M u v k.
+Proof.
+  intros Hu Hv H. rewrite nc_sample_scale by assumption.
+  unfold Qdiv at 1. rewrite (Qmult_inv_r _ H). ring.
+Qed.
+
+(* ---- the thresholded variant *)
+Lemma snap_above eps x : eps < Qabs x -> snap eps x = x.
+Proof.
+  intros H. unfold snap. destruct (Qleb (Qabs x) eps) eqn:E; [|reflexivity].
+  apply Qleb_le in E. exfalso. apply (Qlt_not_le _ _ H E).
+Qed.
+
+Lemma snap_below eps x : Qabs x <= eps -> snap eps x = 0.
+Proof. intros H. unfold snap. apply Qleb_le in H. rewrite H. reflexivity. Qed.
+
+(* invisible while the leave-one-out sums are larger than the threshold ... *)
+Theorem sample_thr_above eps (M : mat) k : eps < Qabs (sample M k) -> sample_thr eps M k == sample M k.
+Proof. intros H. unfold sample_thr. rewrite (snap_above _ _ H). reflexivity. Qed.
+
+(* ... but for every positive threshold not the leave-one-out sum *)
+Theorem sample_thr_not_loo eps : 0 < eps ->
+  exists (M : mat) k, square 2 M /\ (k < 2)%nat /\ ~ sample_thr eps M k == loo M k.
+Proof.
+  intros He. exists [[eps; 0]; [0; eps]], 0%nat.
+  split; [split; [reflexivity | repeat constructor]|]. split; [lia|].
+  assert (S : sample [[eps; 0]; [0; eps]] 0 == eps) by (unfold sample, total, colsum, rowsum, diag; simpl; ring).
+  assert (L : loo [[eps; 0]; [0; eps]] 0 == eps) by (unfold loo, del, total; simpl; ring).
+  unfold sample_thr. rewrite snap_below.
+  - rewrite L. intros C. rewrite <- C in He. apply (Qlt_irrefl 0 He).
+  - rewrite S. rewrite Qabs_pos by (apply Qlt_le_weak; exact He). apply Qle_refl.
+Qed.
+
+(* not homogeneous: the same counts in other units give other samples *)
+Theorem sample_thr_not_homogeneous :
+  exists eps (M : mat) k c, 0 < eps /\ 0 < c /\ ~ sample_thr eps (mscale c M) k == c * sample_thr eps M k.
+Proof.
+  exists (1 # 100000000), [[3; 1]; [2; 5]], 0%nat, (1 # 1099511627776).
+  split; [reflexivity|]. split; [reflexivity|]. vm_compute. discriminate.
+Qed.
+
+(* the normalised count is not invariant under a rescaling of the object weights *)
+Theorem nc_sample_thr_weight_refuted :
+  exists eps auto (M : mat) u v k a, 0 < eps /\ 0 < a /\
+    ~ nc_sample_thr eps auto (mscale (a * a) M) (vscale a u) (vscale a v) k == nc_sample_thr eps auto M u v k.
+Proof.
+  exists (1 # 100000000), false, [[3; 1; 0]; [2; 5; 1]; [0; 4; 2]], [2; 3; 1], [1; 1; 4], 1%nat, (1 # 1048576).
+  split; [reflexivity|]. split; [reflexivity|]. vm_compute. discriminate.
+Qed.
+
+(* ---- histograms and the covariance *)
+Lemma nth_vsum_all B rows b : nth b (vsum B rows) 0 == (if (b <? B)%nat then qsum (map (fun r => nth b r 0) rows) else 0).
+Proof.
+  destruct (b <? B)%nat eqn:E.
+  - apply Nat.ltb_lt in E. rewrite nth_vsum by exact E. reflexivity.
+  - apply Nat.ltb_ge in E. unfold vsum. rewrite nth_overflow; [reflexivity|]. rewrite map_length, seq_length. exact E.
+Qed.
+
+Lemma qsum_col_mscale c (X : list (list Q)) b :
+  qsum (map (fun r => nth b r 0) (mscale c X)) == c * qsum (map (fun r => nth b r 0) X).
+Proof.
+  unfold mscale. induction X as [|r X IH]; simpl; [ring|]. rewrite IH, nth_vscale. ring.
+Qed.
+
+Theorem hist_loo_scale c B obs k b :
+  nth b (vsum B (remove_nth k (mscale c obs))) 0 == c * nth b (vsum B (remove_nth k obs)) 0.
+Proof.
+  unfold mscale. rewrite <- remove_nth_map. fold (mscale c (remove_nth k obs)).
+  rewrite !nth_vsum_all. destruct (b <? B)%nat; [apply qsum_col_mscale | ring].
+Qed.
+
+Lemma length_mscale c (X : list (list Q)) : length (mscale c X) = length X.
+Proof. unfold mscale. apply map_length. Qed.
+
+Lemma mean_col_mscale c X i : mean_col (mscale c X) i == c * mean_col X i.
+Proof.
+  unfold mean_col, col. rewrite length_mscale, qsum_col_mscale. unfold Qdiv. ring.
+Qed.
+
+Lemma sumprod_mscale c X i j : sumprod (mscale c X) i j == c * c * sumprod X i j.
+Proof.
+  unfold sumprod.
+  assert (E : forall f : list Q -> Q, map f (mscale c X) = map (fun r => f (vscale c r)) X)
+    by (intros f; unfold mscale; apply map_map).
+  rewrite E. rewrite (qsum_scal (c * c)). apply qsum_ext_all. intros r. unfold dev.
+  rewrite !mean_col_mscale, !nth_vscale. ring.
+Qed.
+
+(* samples times c: covariance times c^2 (errors times |c|) *)
+Theorem cov_code_scale c X i j : cov_code (mscale c X) i j == c * c * cov_code X i j.
+Proof. unfold cov_code. rewrite sumprod_mscale, length_mscale. ring. Qed.
